@@ -5,6 +5,7 @@ import (
 	"go/ast"
 	"go/token"
 	"go/types"
+	"os"
 	"sort"
 	"strings"
 
@@ -122,6 +123,14 @@ func runC06On(c *Ctx, pfx string, patterns []string, minPairs int) {
 			// layer 2
 			pa, ua := canonPaths(c.An, ff.SSA, rename)
 			pb, ub := canonPaths(refAn, rf.SSA, nil)
+			if os.Getenv("TYPCHECK_TRACE") != "" && strings.Join(pa, "|") != strings.Join(pb, "|") {
+				for _, x := range pa {
+					fmt.Println("TRACE refeq fork", ff.Name, x)
+				}
+				for _, x := range pb {
+					fmt.Println("TRACE refeq ref ", rf.Name, x)
+				}
+			}
 			if ua != "" || ub != "" {
 				R.Unproven(pfx+"equiv", construct, "pair", c.P.Pos(ff.Decl.Pos()), "differs at layer 1 and cannot be summarised at layer 2: "+ua+ub, "fork: "+a, "reference: "+b)
 				continue
